@@ -184,9 +184,6 @@ impl FatVolume {
                 // FAT16 volumes don't have an info sector
             }
             FatSpecificInfo::Fat32(fat32_info) => {
-                if self.free_clusters_count.is_none() && self.next_free_cluster.is_none() {
-                    return Ok(());
-                }
                 trace!("Reading info sector");
                 let block = block_cache
                     .read_mut(fat32_info.info_location)
@@ -196,9 +193,10 @@ impl FatVolume {
                 if let Some(count) = self.free_clusters_count {
                     record[0..4].copy_from_slice(&count.to_le_bytes());
                 }
-                if let Some(next_free_cluster) = self.next_free_cluster {
-                    record[4..8].copy_from_slice(&next_free_cluster.0.to_le_bytes());
-                }
+                // A hint we do not have is stored as 'unknown', so that a junk
+                // value found at mount does not live on.
+                let hint = self.next_free_cluster.map(|c| c.0).unwrap_or(0xFFFF_FFFF);
+                record[4..8].copy_from_slice(&hint.to_le_bytes());
                 if block[488..496] != record {
                     // (only touch the card when the record has actually changed)
                     block[488..496].copy_from_slice(&record);
@@ -1524,7 +1522,11 @@ where
             let info_sector =
                 InfoSector::create_from_bytes(info_block).map_err(Error::FormatError)?;
             volume.free_clusters_count = info_sector.free_clusters_count();
-            volume.next_free_cluster = info_sector.next_free_cluster();
+            // The hint is advisory and may be stale or junk: one that names no
+            // cluster of this volume is as good as none.
+            volume.next_free_cluster = info_sector
+                .next_free_cluster()
+                .filter(|c| c.0 < volume.cluster_count.saturating_add(RESERVED_ENTRIES));
 
             Ok(VolumeType::Fat(volume))
         }
